@@ -176,6 +176,8 @@ def check(ctx):
     ctx.attempt(_warnings)
     ctx.attempt(_tract_sharing)
     ctx.attempt(forward.check_all, module_suffixes=('tract.tract', 'tract.tract_parse', 'plssdesc.plss_parse', 'plssdesc.plssdesc', 'trs.trs'))
+    from .c12 import error_undef_tables      # error flags and desc_is_flawed rely on trs_is_error
+    ctx.attempt(error_undef_tables)
     ctx.attempt(common.flag_prefix_tests)
     ctx.attempt(common.embedded_case_consistency, modules=('rgxlib.warnings',))
     ctx.attempt(common.clause_purity, [f for f in ctx.repo.funcs.values() if f.module.name.endswith(('trs.trs','tract.tract','plssdesc.plss_parse'))])
